@@ -881,7 +881,7 @@ func (p *pagesRun) dense(r *Runner, g *Gen) {
 	}
 	tx := func(toks ...string) { r.exec(append([]string{"T"}, toks...)) }
 	ctx := func() sdk.Context { return e.ctx }
-	np := e.vk.Node.GetParams(ctx())
+	np := e.nodeParams(ctx())
 	gbp := fitBounds([]Coin{{1, bi("10")}}, np.MaxGigabytePrices, np.MinGigabytePrices)
 	hrp := fitBounds([]Coin{{1, bi("10")}}, np.MaxHourlyPrices, np.MinHourlyPrices)
 	for _, a := range g.actors {
@@ -931,7 +931,7 @@ func (p *pagesRun) dense(r *Runner, g *Gen) {
 			rich = append(rich, a)
 		}
 	}
-	sub := e.vk.Node.GetParams(ctx())
+	sub := e.nodeParams(ctx())
 	for _, a := range rich {
 		for _, n := range e.vk.Node.GetNodes(ctx()) {
 			if n.Status != hubtypes.StatusActive || !g.chance(0.5) {
@@ -983,7 +983,7 @@ func (p *pagesRun) dense(r *Runner, g *Gen) {
 			}
 		}
 	}
-	wp := e.wk.GetParams(ctx())
+	wp := e.swapParams(ctx())
 	if ap, err := sdk.AccAddressFromBech32(wp.ApproveBy); err == nil {
 		for k := 0; k < 2+g.pick(5); k++ {
 			tx("swap", g.ta('a', ap).Tok(), "h:"+hx(g.randBytes(32)), g.ta('a', g.actors[g.pick(4)].Bytes).Tok(), fmt.Sprint(100+g.pick(100000)))
